@@ -149,6 +149,14 @@ func runC02(r *Run) {
 			return
 		}
 		r.Nontrivial(c.src)
+		// "stops exactly when the semantics says the operation is undefined": the semantics is one, so a back end that
+		// stops where another yields a value stops wrongly (the call-threaded loop's instruction limit is a known finding)
+		for i, o := range outs[1:] {
+			a, b := outs[0].cls == "value", o.cls == "value"
+			if a != b && o.cls != "refused:overflow" && o.cls != "fault:limit" && outs[0].cls != "fault:limit" {
+				r.Violate("stops-on-one-back-end-only", fmt.Sprintf("%q", c.src), fmt.Sprintf("%s: %s, %s: %s", backends[0], brief(outs[0]), backends[i+1], brief(o)))
+			}
+		}
 		for i, o := range outs {
 			r.Count("outcome:" + strings.SplitN(o.cls, "(", 2)[0])
 			switch {
@@ -353,6 +361,7 @@ func runC06(r *Run) {
 		{"pick([tr(1)], tr(2))", 2}, {"union([tr(1)], [tr(2), tr(3)])", 3}, {"len([tr(1), tr(2)]) + abs(tr(3))", 3}, {"[tr(1): tr(2), tr(3): tr(4)]", 4}, {"isset([tr(1): 0], tr(2))", 2},
 		{"-tr(1) + -tr(2)", 2}, {"(tr(1) > 0 ? tr(2) : tr(99)) + tr(3)", 3}, {"[tr(1), tr(2)][tr(3) - 3] + [tr(4)][tr(5) - 5]", 5}, {"lazyif(tr(1) > 0, tr(2), tr(99)) + tr(3)", 3},
 		{"lazyif(b, lazyif(b, tr(1), tr(99)), tr(98)) + tr(2)", 2}, {"[lazyif(b, lazyif(b, tr(1), tr(99)), tr(98)), tr(2)]", 2}, {"lazyif(b, lazyif(f, tr(99), tr(1)) * 2, tr(98)) - tr(2)", 2},
+		{"tr(1) > 0 && f", 1}, {"tr(1) < 0 || b", 1}, {"[tr(1) > 0, tr(2) > 0 && f, tr(3) > 0]", 3}, {"tr(1) > 0 && b && tr(2) > 0", 2}, {"(tr(1) < 0 || b) && tr(2) > 0", 2},
 		{"if(!!(tr(1) > 0), tr(2), tr(99))", 2}, {"if(!!!(tr(1) > 0), tr(99), tr(2))", 2}, {"!!(tr(1) < 0) && tr(99) > 0", 1}, {"!!(tr(1) > 0) || tr(99) > 0", 1}, {"!(!(tr(1) > 0)) ? tr(2) : tr(99)", 2},
 		{"!!!!(tr(1) > 0) && tr(2) > 0", 2}, {"if(!(tr(1) > 0), tr(99), tr(2))", 2},
 		{"both(both(trb(b), trb(b)), trb(b)) || tr(1) > 0", 0}, {"if(both(b, both(b, b)), tr(1), tr(99)) + tr(2)", 2},
